@@ -583,14 +583,13 @@ def _c06_jobs(tier):
     for i in range(n):
         z("--probe", "pthread", "--history-states", "--depth", 4 if q else 6, "--shard", "%d/%d" % (i, n))
         z("--probe", "pthread", "--worker", 1, "--history-states", "--depth", 4 if q else 6, "--shard", "%d/%d" % (i, n))
-    z("--probe", "plain", "--model", "flat", "--depth", 8 if q else 14)
     z("--probe", "plain", "--model", "nest", "--depth", 8 if q else 14)
     return jobs
 
 CHECKS["C06"] = {
     "engine": "vsched", "design_ref": "DESIGN.md section 3 C06",
     "technique": "stateless preemption-bounded exploration of all interleavings of (L1) a producer thread owning the real queue sink and a consumer thread owning the real queue source, (L2) an application thread owning a real upipe_xfer pipe and the remote thread its manager is attached to, (L3) an application thread owning a real linear worker pipe (upipe_worker.c) built inside the script around a recording remote pipe and the remote thread, each thread with its own mock event loop over simulated descriptors; sequence/ordering, thread-confinement, deadlock and use-after-free (ASan) oracles per execution; plus (freeze) explicit-state enumeration of all set / freeze / thaw / need_upump_mgr sequences on the real per-thread event-loop probe over two real pthreads driven in strict alternation, against a reference model",
-    "level_text": "Producer scripts over set_flow_def / input / flush / loop step / release on the real upipe_qsink, consumer loop on the real upipe_qsrc with a recording sink; queue lengths 1-3, with and without a producer event loop, with max_length 0/1. Every interleaving with at most k preemptions at each atomic operation and each descriptor read/write of the shared queue and refcounts, every dispatch order of ready pumps. Per execution: the consumer receives the flow definition before data and each buffer exactly once in order (nothing lost when the producer has a loop; after a definition change the new definition precedes the next buffer), source_end comes after the last buffer, no deadlock / livelock, every event of the queue sink is thrown in the producer thread and every event of the queue source and every entry into the consumer's sink happens in the consumer thread, nothing is used after free (ASan) and everything is released at the end. L2: application scripts over attach_upump_mgr / set_uri / set_output / loop step / release(xfer pipe) / release(xfer manager) on a real upipe_xfer pipe whose remote pipe is a harness pipe recording the thread of every entry and throwing an event (forwarded by the real uprobe_xfer) on every set_uri: the remote pipe sees exactly the scripted commands, once, in order, only from the remote thread, is released there; forwarded events are thrown by the xfer pipe in the application thread, at most once each; the xfer pipe and its manager die, nothing is used after free, no deadlock. L3: scripts over upipe_wlin_alloc / attach_upump_mgr / set_output / set_flow_def / input / loop step / release: buffers travel application -> in_qsink | in_qsrc -> remote pipe -> out_qsink | out_qsrc -> application sink and must arrive exactly once, in order, after the right definition, with nothing lost once both loops are idle; the remote pipe (and the transferred queue source) is only entered from the remote thread, the application's sink only from the application thread. Freeze (c06_freeze.c): every sequence up to the stated depth over {set(manager A | B | NULL), freeze, thaw, a pipe throws need_upump_mgr} x {thread 0, thread 1} on the real uprobe_pthread_upump_mgr (thread 1 is a real pthread executing on command; the probe's state is pthread-specific data); a recording probe in front of it is the model (per thread: manager set, freeze depth counted on every freeze / thaw event whoever throws it): need_upump_mgr is answered with the calling thread's manager iff one is set and the depth is 0, otherwise it reaches the next probe with the caller's pointer untouched; both threads are asked after every step; manager reference counts are 1 + the threads they are set on after every step and 1 after thread 1 has exited and the probe is released. With the worker alphabet (thread 0: set A/NULL, freeze, thaw, allocate a pipe for the worker (asks for a manager when allocated and when asked for its output), upipe_wsink_alloc around it with the real upipe_worker.c / upipe_transfer.c / queue pipes; thread 1: set B/NULL, freeze, thaw, need, run its loop) the allocator's own freeze / thaw and every need_upump_mgr of the inner pipes in either thread go through the same model: a pipe built inside the application's frozen section is never given a manager, whatever worker allocations precede it in that section; a deported pipe is only entered from thread 1, never holds manager A and is released in thread 1 once both loops are idle. The same alphabet in one thread on uprobe_upump_mgr.c against its documented boolean and against the nesting model. Bounded, not a proof.",
+    "level_text": "Producer scripts over set_flow_def / input / flush / loop step / release on the real upipe_qsink, consumer loop on the real upipe_qsrc with a recording sink; queue lengths 1-3, with and without a producer event loop, with max_length 0/1. Every interleaving with at most k preemptions at each atomic operation and each descriptor read/write of the shared queue and refcounts, every dispatch order of ready pumps. Per execution: the consumer receives the flow definition before data and each buffer exactly once in order (nothing lost when the producer has a loop; after a definition change the new definition precedes the next buffer), source_end comes after the last buffer, no deadlock / livelock, every event of the queue sink is thrown in the producer thread and every event of the queue source and every entry into the consumer's sink happens in the consumer thread, nothing is used after free (ASan) and everything is released at the end. L2: application scripts over attach_upump_mgr / set_uri / set_output / loop step / release(xfer pipe) / release(xfer manager) on a real upipe_xfer pipe whose remote pipe is a harness pipe recording the thread of every entry and throwing an event (forwarded by the real uprobe_xfer) on every set_uri: the remote pipe sees exactly the scripted commands, once, in order, only from the remote thread, is released there; forwarded events are thrown by the xfer pipe in the application thread, at most once each; the xfer pipe and its manager die, nothing is used after free, no deadlock. L3: scripts over upipe_wlin_alloc / attach_upump_mgr / set_output / set_flow_def / input / loop step / release: buffers travel application -> in_qsink | in_qsrc -> remote pipe -> out_qsink | out_qsrc -> application sink and must arrive exactly once, in order, after the right definition, with nothing lost once both loops are idle; the remote pipe (and the transferred queue source) is only entered from the remote thread, the application's sink only from the application thread. Freeze (c06_freeze.c): every sequence up to the stated depth over {set(manager A | B | NULL), freeze, thaw, a pipe throws need_upump_mgr} x {thread 0, thread 1} on the real uprobe_pthread_upump_mgr (thread 1 is a real pthread executing on command; the probe's state is pthread-specific data); a recording probe in front of it is the model (per thread: manager set, freeze depth counted on every freeze / thaw event whoever throws it): need_upump_mgr is answered with the calling thread's manager iff one is set and the depth is 0, otherwise it reaches the next probe with the caller's pointer untouched; both threads are asked after every step; manager reference counts are 1 + the threads they are set on after every step and 1 after thread 1 has exited and the probe is released. With the worker alphabet (thread 0: set A/NULL, freeze, thaw, allocate a pipe for the worker (asks for a manager when allocated and when asked for its output), upipe_wsink_alloc around it with the real upipe_worker.c / upipe_transfer.c / queue pipes; thread 1: set B/NULL, freeze, thaw, need, run its loop) the allocator's own freeze / thaw and every need_upump_mgr of the inner pipes in either thread go through the same model: a pipe built inside the application's frozen section is never given a manager, whatever worker allocations precede it in that section; a deported pipe is only entered from thread 1, never holds manager A and is released in thread 1 once both loops are idle. The same alphabet in one thread on uprobe_upump_mgr.c against the same nesting model. Bounded, not a proof.",
     "level_note": "Levels L1 (queue pair), L2 (transfer) and L3 (linear worker over a harness-attached xfer manager) of DESIGN section 3/C06, and the freeze / thaw machinery of the upump-manager probes (thaws balanced: an unbalanced thaw wraps the unsigned counter and is outside the alphabet; the sink worker is the one driven, the linear / source allocators share _upipe_work_alloc). upipe_pthread_transfer (real thread creation) and source workers are not explored; ThreadSanitizer is not run under the scheduler (coroutines); instead the 'no unsynchronised access' clause is additionally checked by a free-running ThreadSanitizer pass over the repository's transfer / worker (linear, source, sink) / pthread-upump-manager tests, which use real threads, real upump_ev loops and upipe_pthread_transfer (suppressions: engine/tsan.supp). Managers' internal atomics are not scheduling points (thread-safe services decided by C07/C09). Sequentially consistent interleavings.",
     "jobs": {"quick": _c06_jobs("quick") + _free_jobs(FREE_TESTS[:6], []), "thorough": _c06_jobs("thorough") + _free_jobs(FREE_TESTS[:6], [])},
     "rule": "one execution = one complete schedule; states = scheduling points visited; non-trivial = executions in which the consumer's loop ran while the producer was still in its script; freeze: state = history (merged on model state + observed answers + reference counts unless stated), non-trivial = a thread is frozen with a manager set or a worker exists",
